@@ -39,7 +39,7 @@ RULE = ("cell cubic/orthorhombic/hexagonal/triclinic (2.5-7 A); true centering P
 CLAUSES = ["friedel", "forbidden-reflections-zero", "reflection-condition", "potential-real", "potential-fourier-sum",
            "potential-periodic", "lattice-translation", "structure-factor-model", "lazy-build", "centered-lattices-exercised"]
 QUICK = dict(n=80, time=45)
-THOROUGH = dict(n=12000, time=420, shards=16)
+THOROUGH = dict(n=31250, time=480, shards=16)
 ASSUMPTIONS = ["centring names follow the International Tables (A: (0,1/2,1/2), B: (1/2,0,1/2), C: (1/2,1/2,0))",
                "a lattice whose translation-related atoms carry different per-atom sigmas/occupancies is primitive"]
 
